@@ -11,7 +11,7 @@ from common import *
 import gen, pipeline, model, impl, compare, findings as F, oracle
 from props import base
 
-PROPS_MODULES = ["ShexerModel.Props.C13", "ShexerModel.Props.C13b"]
+PROPS_MODULES = ["ShexerModel.Props.C13", "ShexerModel.Props.C13b", "ShexerModel.Props.C13c"]
 DEPS = ["relax_cardinality", "generalize_cardinality", "cardinality_representation"]
 replay = base.replay
 
